@@ -146,7 +146,11 @@ pub fn gen_scn(rs: u64, tier: Tier) -> Scn {
     let nh = rng.range(0, 4) as usize;
     let mut hosts = Vec::new();
     for _ in 0..nh {
-        let mut pattern = match rng.below(5) {
+        // (mixed-case host patterns use capital letters that occur nowhere else in lower case, and
+        // requests spell such a host exactly as it is registered: a case-sensitive and a
+        // case-insensitive matcher give the same answers on everything generated here)
+        let mut pattern = match rng.below(6) {
+            5 => ["Q.Corp", "*.Zone.Corp:8*", "Node7.Q*", "WWW.Dock.Corp"][rng.usize_below(4)].to_string(),
             0 => "example.com".to_string(),
             1 => "*.example.com".to_string(),
             2 => gen_pattern(&mut rng, ""),
@@ -194,6 +198,16 @@ pub fn gen_scn(rs: u64, tier: Tier) -> Scn {
             };
             if !path.starts_with('/') {
                 path = format!("/{}", path);
+            }
+            // a literal `*` is a legal path character: one path in eight has one somewhere after the
+            // leading slash (where a pattern has its wildcard, the wildcard has to take it)
+            {
+                let mut r5 = Rng::new(humsim::rng::mix(&[rng.next_u64(), 0xC04_0005]));
+                if r5.chance(1, 8) {
+                    let chars: Vec<char> = path.chars().collect();
+                    let at = 1 + r5.usize_below(chars.len());
+                    path = chars[..at].iter().chain(std::iter::once(&'*')).chain(chars[at..].iter()).collect();
+                }
             }
             reqs.push(Rq { host, path, query: if rng.chance(1, 4) { "q=1&r=*".into() } else { String::new() }, ws });
         }
@@ -322,7 +336,7 @@ impl Prop for C04 {
         }
     }
     fn rule(&self) -> &'static str {
-        "One case = a generated application (0..4 host sub-apps with patterns over literals / prefixes / suffixes / infixes / multiple and adjacent `*` / self-overlapping literals / 2- and 4-byte characters, 0..6 HTTP routes and 0..3 WebSocket routes each, plus the default app) and 1..4 concurrent client connections of 1..6 keep-alive requests with Host absent / exact / wildcard-matching / with port / non-matching and paths matching several, one or no routes, with and without query; WebSocket upgrade requests end a connection. Every handler answers with its identity; the oracle is a reference router over an independent DP glob matcher. This check is dominated by seeded configuration/input generation; the simulator contributes the connection history, concurrency and runtime dimension. Distinct = distinct (app shape, request sequence, identities answered); non-trivial = at least one host sub-app, two requests, and a request whose path matches more than one route or whose host matches more than one sub-app."
+        "One case = a generated application (0..4 host sub-apps with patterns over literals / prefixes / suffixes / infixes / multiple and adjacent `*` / self-overlapping literals / 2- and 4-byte characters / mixed-case names spelled by the client exactly as registered, 0..6 HTTP routes and 0..3 WebSocket routes each, plus the default app) and 1..4 concurrent client connections of 1..6 keep-alive requests with Host absent / exact / wildcard-matching / with port / non-matching and paths matching several, one or no routes (one in eight containing a literal `*`), with and without query; WebSocket upgrade requests end a connection. Every handler answers with its identity; the oracle is a reference router over an independent DP glob matcher. This check is dominated by seeded configuration/input generation; the simulator contributes the connection history, concurrency and runtime dimension. Distinct = distinct (app shape, request sequence, identities answered); non-trivial = at least one host sub-app, two requests, and a request whose path matches more than one route or whose host matches more than one sub-app."
     }
     fn assumptions(&self) -> Vec<String> {
         vec![
